@@ -5,12 +5,16 @@ use crate::common::alc;
 use crate::common::udpendpoint::UDPEndpoint;
 use crate::tools::error::Result;
 use core::fmt::Debug;
+#[cfg(not(feature = "ypo_flute_verif"))]
 use std::collections::HashMap;
+#[cfg(feature = "ypo_flute_verif")]
+use std::collections::BTreeMap as HashMap;
 use std::rc::Rc;
 use std::time::SystemTime;
 
 /// Receiver endpoint
 #[derive(Debug, Hash, Eq, PartialEq, Clone)]
+#[cfg_attr(feature = "ypo_flute_verif", derive(PartialOrd, Ord))]
 pub struct ReceiverEndpoint {
     /// UDP endpoint
     pub endpoint: UDPEndpoint,
